@@ -627,6 +627,11 @@ Section Model.
         let ps := qprims (eps s) m n q qo in
         prims_ok (qap_of qo) ps q &&
         match qo with
+        (* addRowRational / addColRational(const mpq_t pointers): an explicit zero among the values is stored in the
+           row (column) vector but not in the column (row) file; the two files of the rational LP then disagree, a
+           later changeElement duplicates the entry.  Reported as a defect; such calls are outside the modelled domain *)
+        | QAddRow true (_, _, v) => forallb (fun p => qnz (snd p)) v
+        | QAddCol true (_, _, _, v) => forallb (fun p => qnz (snd p)) v
         | QAddRows g rs => forallb (fun r => no_growth g n (snd r)) rs
         | QAddCols g cs => forallb (fun c => no_growth g m (snd c)) cs
         | GRhsV xs => length xs <=? m
